@@ -622,7 +622,7 @@ def c09(ctx: Ctx) -> None:
         ctx.check('C09-R2', f'{norm(c.ast)}', g.loc(c), guarded or r1_ok,
                   'state-guarded' if guarded else 'no await can cancel the future (R1 holds)',
                   'set_result/set_exception on a future that a cancelled caller has cancelled raises InvalidStateError',
-                  construct=construct_key('BATCHER.process_batch', norm_locals(c.ast, r.process), 'unguarded completion'))
+                  construct=construct_key('BATCHER.process_batch', norm_locals(c.ast, r.process, g), 'unguarded completion'))
     # R3
     fan_handlers = []
     for s, comps in _sweeps(r):
@@ -679,22 +679,86 @@ def c10(ctx: Ctx) -> None:
     def is_len_L(e):
         return isinstance(e, ast.Call) and isinstance(e.func, ast.Name) and e.func.id == 'len' and len(e.args) == 1 \
             and isinstance(e.args[0], ast.Name) and e.args[0].id == L
+    def lin(e):
+        """Linear form {atom: coefficient} (+ constant under key 1) of an integer expression over len(L), self.<attr>
+        and integer literals; None if it is anything else."""
+        if isinstance(e, ast.Constant) and isinstance(e.value, int) and not isinstance(e.value, bool):
+            return {1: e.value}
+        if is_len_L(e):
+            return {'len': 1}
+        if self_attr(e):
+            return {'self.' + self_attr(e): 1}
+        if isinstance(e, ast.UnaryOp) and isinstance(e.op, ast.USub):
+            a = lin(e.operand)
+            return None if a is None else {k: -v for k, v in a.items()}
+        if isinstance(e, ast.BinOp) and isinstance(e.op, (ast.Add, ast.Sub)):
+            a, b = lin(e.left), lin(e.right)
+            if a is None or b is None:
+                return None
+            out = dict(a)
+            for k, v in b.items():
+                out[k] = out.get(k, 0) + (v if isinstance(e.op, ast.Add) else -v)
+            return {k: v for k, v in out.items() if v != 0 or k == 1}
+        return None
+
+    def room_form(d):
+        """(s, attr, c) when d == s * (len(L) - self.attr) + c with s = +1 / -1."""
+        if d is None:
+            return None
+        attrs = [k for k in d if isinstance(k, str) and k.startswith('self.')]
+        if len(attrs) != 1 or set(d) - {1, 'len', attrs[0]}:
+            return None
+        s_ = d.get('len', 0)
+        if s_ not in (1, -1) or d[attrs[0]] != -s_:
+            return None
+        return s_, attrs[0][5:], d.get(1, 0)
+
     guards = []
     for n in g.nodes:
         if n.kind == 'branch' and isinstance(n.meta['test'], ast.Compare) and len(n.meta['test'].ops) == 1:
             t = resolve(g, n, n.meta['test'], keep=(L,))
             l, rr, op = t.left, t.comparators[0], t.ops[0]
-            if is_len_L(l) and self_attr(rr) and isinstance(op, ast.Lt):
-                guards.append((n, 'true', self_attr(rr)))
-            elif is_len_L(rr) and self_attr(l) and isinstance(op, ast.Gt):
-                guards.append((n, 'true', self_attr(l)))
-            elif is_len_L(l) and self_attr(rr) and isinstance(op, ast.GtE):
-                guards.append((n, 'false', self_attr(rr)))
-            elif is_len_L(rr) and self_attr(l) and isinstance(op, ast.LtE):
-                guards.append((n, 'false', self_attr(l)))
-            elif (is_len_L(l) or is_len_L(rr)) and (self_attr(l) or self_attr(rr)):
+            ll, lr = lin(l), lin(rr)
+            d = None
+            if ll is not None and lr is not None:
+                d = dict(ll)
+                for k, v in lr.items():
+                    d[k] = d.get(k, 0) - v
+                d = {k: v for k, v in d.items() if v != 0}
+            rf = room_form(d)
+            if rf is None:
+                if (is_len_L(l) or is_len_L(rr)) and (self_attr(l) or self_attr(rr)):
+                    ctx.violation('C10-R1', f'size guard {norm(t)}', g.loc(n),
+                                  'the guard admits a growth when the list already holds max_batch_size items (off by one)',
+                                  construct=construct_key(r.assemble.qualname, 'guard', t))
+                continue
+            s_, attr_, c_ = rf
+            # with t = len(L) - self.attr the test is  s*t + c  <op>  0 ; one of its edges bounds t from above by K
+            edge = K = None
+            if s_ == 1:
+                if isinstance(op, ast.Lt):
+                    edge, K = 'true', -c_ - 1
+                elif isinstance(op, ast.LtE):
+                    edge, K = 'true', -c_
+                elif isinstance(op, ast.Gt):
+                    edge, K = 'false', -c_
+                elif isinstance(op, ast.GtE):
+                    edge, K = 'false', -c_ - 1
+            else:
+                if isinstance(op, ast.Lt):
+                    edge, K = 'false', c_
+                elif isinstance(op, ast.LtE):
+                    edge, K = 'false', c_ - 1
+                elif isinstance(op, ast.Gt):
+                    edge, K = 'true', c_ - 1
+                elif isinstance(op, ast.GtE):
+                    edge, K = 'true', c_
+            if edge is not None and K == -1:
+                guards.append((n, edge, attr_))        # on this edge len(L) <= self.attr - 1
+            else:
                 ctx.violation('C10-R1', f'size guard {norm(t)}', g.loc(n),
-                              'the guard admits a growth when the list already holds max_batch_size items (off by one)',
+                              'the guard admits a growth when the list already holds max_batch_size items (off by one)'
+                              if K is None or K > -1 else 'the guard stops the batch before it holds max_batch_size items',
                               construct=construct_key(r.assemble.qualname, 'guard', t))
     from ..dataflow import unalias
 
@@ -727,7 +791,9 @@ def c10(ctx: Ctx) -> None:
             why = 'bulk growth is not an islice bounded by max_batch_size - len(list)'
             if isinstance(a, ast.Call) and call_name(g, a) == 'itertools.islice' and len(a.args) == 2:
                 b = a.args[1]
-                ok = isinstance(b, ast.BinOp) and isinstance(b.op, ast.Sub) and self_attr(b.left) == maxattr and is_len_L(b.right)
+                rf_ = room_form(lin(b))
+                # the bound is (self.max - len(L)) + c with c <= 0
+                ok = rf_ is not None and rf_[0] == -1 and rf_[1] == maxattr and rf_[2] <= 0
             ctx.check('C10-R1', f'bulk growth bound {norm(a)[:90] if a is not None else None}', g.loc(gr), ok,
                       'takes at most max_batch_size - len(list) items', why,
                       construct=construct_key(r.assemble.qualname, 'bulk bound', a))
